@@ -779,6 +779,21 @@ func (in *interpreter) globalValue(pkgPath, name string) value {
 var universeError = types.Universe.Lookup("error").Type()
 
 func init() {
+	// maps.clone is implemented by the runtime (linkname): a shallow copy of the map
+	externals["maps.clone"] = func(fr *frame, args []value) value {
+		it, _ := args[0].(iface)
+		m, _ := it.v.(*omap)
+		if m == nil {
+			return args[0]
+		}
+		c := newOmap(m.kt)
+		for _, e := range m.ents {
+			if !e.dead {
+				c.insert(fr.i, e.key, e.val)
+			}
+		}
+		return iface{t: it.t, v: c}
+	}
 	externals["encoding/json.Marshal"] = func(fr *frame, args []value) value {
 		return tuple{bytesValue(marshalValue(fr.i, args[0], true)), iface{}}
 	}
